@@ -296,14 +296,14 @@ def check_lines(x, case, ds):
         if dim is None:
             continue
         ds_ = dim if isinstance(dim, list) else [dim]
-        _relation(matched, ds_, prop, prop)
+        _relation(matched, ds_, prop, prop, sel)
     cdims = []
     for prop in ("hue", "color"):
         dim = case["map"].get(prop)
         if dim is not None:
             cdims += dim if isinstance(dim, list) else [dim]
     if cdims:
-        _relation(matched, cdims, "color", "color")
+        _relation(matched, cdims, "color", "color", sel)
     npanel = (1 if row is None else 1) + (0 if col is None else 1)
     nt = (len(mapped) >= 2 and (row or col)) or dropped or bool(agg)
     return {"nontrivial": bool(nt),
@@ -315,7 +315,7 @@ def check_lines(x, case, ds):
                         "x-variable" if case.get("x_is_var") else "x-coord"]}
 
 
-def _relation(matched, dims, prop, readout):
+def _relation(matched, dims, prop, readout, sel):
     table = {}
     for loc, ln in matched:
         key = tuple(loc[d] for d in dims)
@@ -325,7 +325,13 @@ def _relation(matched, dims, prop, readout):
                     f"{prop}: coordinate {dict(zip(dims, key))} is drawn "
                     f"with {table[key]} and with {val}")
         table[key] = val
-    if len(table) <= LIMIT.get(prop, 99):
+    # default styles are handed out to every selected coordinate (also one
+    # that turns out to hold no data), so "distinct styles remain" is about
+    # the number of selected coordinates, not of drawn ones
+    ncand = 1
+    for d in dims:
+        ncand *= len(sel[d])
+    if max(ncand, len(table)) <= LIMIT.get(prop, 99):
         vals = list(table.values())
         require(len(set(map(repr, vals))) == len(vals),
                 "style-not-distinct",
